@@ -52,4 +52,18 @@ pub fn run(ctx: &mut Ctx) {
             ctx.violation(id, "traits", format!("probe crate (Send + Sync + Clone + 'static on the state types) failed to compile with features \"{}\": {}", f, tail), format!("PROBE {}", f));
         }
     }
+    // freestanding probe: a #![no_std] crate with its own panic handler depending on the core crate
+    // without default features (and with alloc but not std): compiles only if std is not linked
+    for f in ["", "block-boundary", "with-alloc", "with-alloc,block-boundary"] {
+        let id = ctx.id();
+        let mut args = vec!["check", "--offline"];
+        if !f.is_empty() { args.push("--features"); args.push(f); }
+        let (ok, err) = cargo(&args, "/verif/harness/probe_nostd", "");
+        ctx.evals += 1; ctx.nontrivial.insert(id as u64 | 1 << 22);
+        ctx.count("nostd_probes");
+        if !ok {
+            let tail: String = err.lines().filter(|l| l.contains("error")).take(4).collect::<Vec<_>>().join(" | ");
+            ctx.violation(id, "no_std", format!("freestanding #![no_std] consumer (own panic handler) of the crate built with --no-default-features --features \"{}\" failed to compile: {}", f, tail), format!("NOSTD {}", f));
+        }
+    }
 }
